@@ -82,6 +82,11 @@ func (spec Spec) Validate() error {
 	if spec == (Spec{}) {
 		return fmt.Errorf("none of the validations are defined")
 	}
+	// Signer.Verify panics without an access key store, and the store is
+	// only created from a non-empty accessKeys.
+	if spec.Signature != nil && len(spec.Signature.AccessKeys) == 0 {
+		return fmt.Errorf("accessKeys of signature is empty")
+	}
 	return nil
 }
 
